@@ -531,6 +531,49 @@ theorem gen_setString (f : Nat) (s : Heap) (this : Obj) (c : Cell) (hc : this.ce
     · simp [cellType, Val.type] at h1
     · have := notBoxed_type_lt _ hx; simp only [cellType] at h1; simp only at this; omega
 
+/-! ### the same statements against the functions the driver runs (`leafOp`, `assignFrom`, `dstep`'s copy) -/
+
+/-- `mut … clear` / `~Variant()`: the translated `clear()` is the leaf operation `.clear` of the deep model -/
+theorem gen_clear_leaf (f : Nat) (ds : DblSem) (rd : Nat → Cell) (s : Heap) (this : Obj) (c : Cell) (hc : this.cell = some c) :
+    (VariantRep.clear (release f) s this).bind (fun r => r.2.cell.map (fun c' => (r.1, c')))
+      = leafOp (f + 1) ds rd s c .clear := by
+  rw [gen_clear f s this c hc]
+  simp only [leafOp]
+  cases release (f + 1) s c <;> simp [Obj.cell]
+
+/-- `mut … touch k`: the translated mutable accessors are the leaf operation `.touch` -/
+theorem gen_touch_leaf (f : Nat) (ds : DblSem) (rd : Nat → Cell) (s : Heap) (this : Obj) (c : Cell) (hc : this.cell = some c) (hl : Live s c) :
+    (VariantRep.toMapMut (release f) ds s this).bind (fun r => r.2.cell.map (fun c' => (r.1, c'))) = leafOp (f + 1) ds rd s c (.touch 7) ∧
+    (VariantRep.toListMut (release f) ds s this).bind (fun r => r.2.cell.map (fun c' => (r.1, c'))) = leafOp (f + 1) ds rd s c (.touch 8) ∧
+    (VariantRep.toArrayMut (release f) ds s this).bind (fun r => r.2.cell.map (fun c' => (r.1, c'))) = leafOp (f + 1) ds rd s c (.touch 9) ∧
+    (VariantRep.toStringMut (release f) ds s this).bind (fun r => r.2.cell.map (fun c' => (r.1, c'))) = leafOp (f + 1) ds rd s c (.touch 10) :=
+  ⟨gen_toMapMut f ds s this c hc hl, gen_toListMut f ds s this c hc hl, gen_toArrayMut f ds s this c hc hl, gen_toStringMut f ds s this c hc hl⟩
+
+/-- `mut … set <scalar literal>`: the translated scalar `operator=` are the leaf operation `.set (.lit x)` -/
+theorem gen_set_scalar_leaf (f : Nat) (ds : DblSem) (rd : Nat → Cell) (s : Heap) (this : Obj) (c : Cell) (hc : this.cell = some c) (hl : Live s c) :
+    (∀ x, (VariantRep.setBool (release f) s this x).bind (fun r => r.2.cell.map (fun c' => (r.1, c'))) = leafOp (f + 1) ds rd s c (.set (.lit (.bool x)))) ∧
+    (∀ x, (VariantRep.setDouble (release f) s this x).bind (fun r => r.2.cell.map (fun c' => (r.1, c'))) = leafOp (f + 1) ds rd s c (.set (.lit (.dbl x)))) ∧
+    (∀ x, (VariantRep.setInt (release f) s this x).bind (fun r => r.2.cell.map (fun c' => (r.1, c'))) = leafOp (f + 1) ds rd s c (.set (.lit (.int x)))) ∧
+    (∀ x, (VariantRep.setUInt (release f) s this x).bind (fun r => r.2.cell.map (fun c' => (r.1, c'))) = leafOp (f + 1) ds rd s c (.set (.lit (.uint x)))) ∧
+    (∀ x, (VariantRep.setInt64 (release f) s this x).bind (fun r => r.2.cell.map (fun c' => (r.1, c'))) = leafOp (f + 1) ds rd s c (.set (.lit (.int64 x)))) ∧
+    (∀ x, (VariantRep.setUInt64 (release f) s this x).bind (fun r => r.2.cell.map (fun c' => (r.1, c'))) = leafOp (f + 1) ds rd s c (.set (.lit (.uint64 x)))) := by
+  refine ⟨fun x => ?_, fun x => ?_, fun x => ?_, fun x => ?_, fun x => ?_, fun x => ?_⟩
+  · rw [gen_setBool f s this c hc hl x]; by_cases h : cellType s c = 1 <;> simp [leafOp, Val.isBoxed, Val.type, h]
+  · rw [gen_setDouble f s this c hc hl x]; by_cases h : cellType s c = 2 <;> simp [leafOp, Val.isBoxed, Val.type, h]
+  · rw [gen_setInt f s this c hc hl x]; by_cases h : cellType s c = 3 <;> simp [leafOp, Val.isBoxed, Val.type, h]
+  · rw [gen_setUInt f s this c hc hl x]; by_cases h : cellType s c = 4 <;> simp [leafOp, Val.isBoxed, Val.type, h]
+  · rw [gen_setInt64 f s this c hc hl x]; by_cases h : cellType s c = 5 <;> simp [leafOp, Val.isBoxed, Val.type, h]
+  · rw [gen_setUInt64 f s this c hc hl x]; by_cases h : cellType s c = 6 <;> simp [leafOp, Val.isBoxed, Val.type, h]
+
+/-- `v = w` / `get`: the translated `operator=(const Variant&)` is `assignFrom` (the variable's cell afterwards, up to the
+    representation of null) -/
+theorem gen_assignFrom (f : Nat) (s : DState) (v : Nat) (this : Obj) (other : Cell) (hc : this.cell = some (s.vars v)) (hl : Live s.h other) :
+    (VariantRep.assign (release f) s.h this false other).bind (fun r => r.2.cell.map (fun c' => (r.1, norm c')))
+      = (assignFrom (f + 1) s v other).map (fun s' => (s'.h, norm (s'.vars v))) := by
+  rw [(gen_assign f s.h this (s.vars v) other hc hl).2]
+  simp only [assignFrom]
+  cases release (f + 1) (copyCell s.h other).1 (s.vars v) <;> simp [upd]
+
 /-! ### non-vacuity: a heap with a list block shared by two handles, an object pointing to it -/
 
 def exHeap : Heap := ⟨fun b => if b = 0 then some ⟨2, .list [.inl (.int 1), .null]⟩ else none, 1⟩
